@@ -314,6 +314,8 @@ package nfs
 //@   ensures [R2-durable] result.Status == 0 ==> lastst == 1 @C01 @C07
 //@   ensures [A1-aborted] result.Status != 0 ==> lastst == 3 || lastst == 4 @C09
 //@   ensures [H3-handle] result.Status == 0 ==> len(result.Resok.Object.Data) == 16 && le64(result.Resok.Object.Data, 0) == old(dnames)[fhIno(args.What.Dir)][args.What.Name] && uint64(result.Resok.Obj_attributes.Attributes.Fileid) == le64(result.Resok.Object.Data, 0) @C08 @C02
+// H3 (C08): the handle handed out carries the generation of the object it names (not of the directory)
+//@   ensureslocal [H3-gen] result.Status == 0 ==> le64(result.Resok.Object.Data, 8) == inodes[0].Gen && le64(result.Resok.Object.Data, 0) == inodes[0].Inum @C08
 //@   ensures [L2-quiet] rpcPost(nfs) @C03 @C06 @C14
 
 
@@ -354,6 +356,7 @@ package nfs
 //@ spec (*Nfs).NFSPROC3_READDIR(nfs, args)
 //@   props C01 C02 C03 C06 C08 C09 C10 C11 C13 C14
 //@   callsite fstxn.(*FsTxn).GetInodeFh@1 requires [H1-object] arg1 == args.Dir @C08
+//@   callsite nfs.Readdir3@1 requires [E6-request] arg0 == ip && arg2 == args.Cookie && arg3 == args.Count @C13
 //@   requires rpcPre(nfs)
 //@   allocates $TXALLOC, $DIRALLOC, nfstypes.READDIR3res, cell:*nfstypes.Entry3
 //@   modifies $TXMODS, $FILEMODS, $DIRMODS
@@ -367,6 +370,7 @@ package nfs
 //@ spec (*Nfs).NFSPROC3_READDIRPLUS(nfs, args)
 //@   props C01 C02 C03 C06 C08 C09 C10 C11 C13 C14
 //@   callsite fstxn.(*FsTxn).GetInodeFh@1 requires [H1-object] arg1 == args.Dir @C08
+//@   callsite nfs.Ls3@1 requires [E6-request] arg0 == ip && arg2 == args.Cookie && arg3 == args.Dircount && arg4 == args.Maxcount @C13
 //@   requires rpcPre(nfs)
 //@   allocates $TXALLOC, $DIRALLOC, nfstypes.READDIRPLUS3res, cell:*nfstypes.Entryplus3, fh.Fh, struct:struct{}
 //@   modifies $TXMODS, $FILEMODS, $DIRMODS
@@ -416,6 +420,7 @@ package nfs
 //@   callsite nfs.(*Nfs).getAlloc@1 requires [H1-object] arg2 == dfh && arg3 == name && arg4 == kind @C08 @C02
 //@   requires rpcPre(nfs)
 // Fn2-flow (C02): a symbolic link's target is written whole, from offset 0, into the new inode
+//@   ensureslocal [H3-gen] err == 0 ==> len(fh3.Data) == 16 && le64(fh3.Data, 0) == ip.Inum && le64(fh3.Data, 8) == ip.Gen @C08
 //@   callsite inode.(*Inode).Write@1 requires [Fn2-link-target] arg0 == ip && arg2 == 0 && arg3 == len(data) && arg4 == data @C02
 // (D-40) the name of a symbolic link is entered only once the whole target has been stored
 //@   callsite dir.AddName@1 requires [Fn2-link-whole] kind == 5 ==> callresult("inode.(*Inode).Write@1", 0) == len(data) @C02 @C09
